@@ -131,6 +131,24 @@ def static_render(sts, indent=1):
     return src
 
 
+def loop_jump_shapes():
+    """loops whose body conditionally jumps before an unconditional exit (always included: depth 2, where the quick tier samples)"""
+    out = []
+    jumps = [["brk"], ["cont"], ["ret"], ["raise"]]
+    leaves = [["ret"], ["raise"], ["simple"], ["brk"], ["cont"]]
+    for c in CONDS:
+        for j in jumps:
+            for o in [[]] + [[j2] for j2 in jumps]:
+                for leaf in leaves:
+                    guarded = ["if", c, [j], o]
+                    for body in ([guarded, leaf], [["with", [guarded]], leaf], [["try", [guarded], "all", [["simple"]], []], leaf], [["simple"], guarded, leaf]):
+                        for it in ITERS:
+                            out.append(["for", it, body])
+                        for wc in CONDS:
+                            out.append(["while", wc, body])
+    return out
+
+
 def blocking_suite(ctx):
     from pyrefact import core
 
@@ -139,6 +157,7 @@ def blocking_suite(ctx):
     base = shapes(1, False)
     seen = {_json.dumps(x) for x in base}
     sts = base + [x for x in shapes(1, True) if _json.dumps(x) not in seen]
+    sts = sts + [x for x in loop_jump_shapes() if _json.dumps(x) not in seen]
     deep = shapes(2, False)
     if ctx.thorough:
         sts = sts + deep
@@ -203,7 +222,7 @@ def run(bits):
     except ValueError: out = "raise"
     except AssertionError: out = "raise"
     except _B: out = "fuel"
-    return out, st["pos"]
+    return out, st["pos"], st["steps"]
 '''
 
 
@@ -258,8 +277,8 @@ def exec_suite(ctx):
             # the model list is body + nothing; python adds a trailing tick (normal)
             if ans["out"] == "fuel" or py[0] == "fuel":
                 continue
-            if (ans["out"], ans["pos"]) != py:
-                s.disagreements.append({"stmts": body, "bits": list(bits), "model": [ans["out"], ans["pos"]], "python": list(py), "src": src,
+            if (ans["out"], ans["pos"]) != py[:2]:
+                s.disagreements.append({"stmts": body, "bits": list(bits), "model": [ans["out"], ans["pos"]], "python": list(py[:2]), "src": src,
                                         "what": "skeleton semantics differs from CPython"})
                 break
             if (ans["out_del"], ans["pos_del"]) != (ans["out"], ans["pos"]) or not ans.get("same_trace", True):
@@ -271,16 +290,20 @@ def exec_suite(ctx):
     return s
 
 
-def unreachable_oracle(ctx):
+def unreachable_oracle(ctx, only_bodies=None):
     """the real delete_unreachable_code on instrumented functions, executed under every valuation before/after"""
     from pyrefact import fixes
 
     s = Suite("unreachable-oracle", kind="oracle")
     r = ctx.rng("unreach")
-    pool = [b for b in bodies_of(2, False) if not unsafe_to_run(b)]
-    cases = r.sample(pool, min(len(pool), ctx.n(250, 4000)))
-    special = [b for b in pool if any(st[0] == "try" or (st[0] in ("while", "for") and len(st) > 3) for st in _walk(b))]
-    cases += r.sample(special, min(len(special), ctx.n(150, 2000)))
+    if only_bodies is not None:
+        cases = [b for b in only_bodies if not unsafe_to_run(b)]
+    else:
+        pool = [b for b in bodies_of(2, False) if not unsafe_to_run(b)]
+        cases = r.sample(pool, min(len(pool), ctx.n(250, 4000)))
+        special = [b for b in pool if any(st[0] == "try" or (st[0] in ("while", "for") and len(st) > 3) for st in _walk(b))]
+        cases += r.sample(special, min(len(special), ctx.n(150, 2000)))
+        cases += [[st] for st in loop_jump_shapes()[:: 7]]
     # hand-written extras (try / else combinations beyond the generator)
     extra = [
         "        while c():\n            tick()\n        else:\n            return 7\n        tick()",
@@ -292,7 +315,7 @@ def unreachable_oracle(ctx):
         "        for _ in it1():\n            if c():\n                continue\n            return 7\n        tick()",
     ]
     all_bits = list(itertools.product([False, True], repeat=4))
-    srcs = ["\n".join(render(b + [["simple"]], 2, None)) for b in cases] + extra
+    srcs = ["\n".join(render(b + [["simple"]], 2, None)) for b in cases] + (extra if only_bodies is None else [])
     for body_src in srcs:
         s.cases += 1
         # the tool sees plain python: conditions are calls (unknown), iterables calls (unknown) or literals
@@ -494,9 +517,54 @@ def sideeffect_suite(ctx):
     return s
 
 
+def pointless_programs():
+    """a side-effect free def whose name is bound to something effectful by anything but a plain module-level assignment, then
+    called in a statement that has no other purpose (plus controls where deleting the statement is right)"""
+    pure = "def emit(msg):\n    return None\n\n\n"
+    calls = ["emit('direct')", "[emit(v) for v in (1, 2)]", "emit('yes') if emit else None", "(emit('a'), emit('b'))", "emit(emit('nested'))"]
+    rebinds = [
+        ("local assignment", "def run():\n    emit = print\n    {call}\n    return 1\n\n\nrun()\n"),
+        ("for target", "def run():\n    for emit in (print,):\n        {call}\n    return 1\n\n\nrun()\n"),
+        ("with target", "import contextlib\n\n\ndef run():\n    with contextlib.nullcontext(print) as emit:\n        {call}\n    return 1\n\n\nrun()\n"),
+        ("walrus", "def run():\n    if (emit := print):\n        {call}\n    return 1\n\n\nrun()\n"),
+        ("global rebinding", "def setup():\n    global emit\n    emit = print\n\n\nsetup()\n{call}\n"),
+        ("tuple assignment in a function", "def run():\n    emit, other = print, 0\n    {call}\n    return other\n\n\nrun()\n"),
+        ("module-level for target", "for emit in (print,):\n    {call}\n"),
+        ("control: not rebound", "def run():\n    {call}\n    return 1\n\n\nrun()\nprint('done')\n"),
+        ("control: module-level assignment", "emit = print\n\n\ndef run():\n    {call}\n    return 1\n\n\nrun()\n"),
+    ]
+    return [(f"{name} / {call}", pure + tmpl.format(call=call)) for (name, tmpl) in rebinds for call in calls]
+
+
+def pointless_oracle(ctx):
+    import oracles
+    from pyrefact import fixes
+
+    s = Suite("pointless-oracle", kind="oracle")
+    for name, src in pointless_programs():
+        s.cases += 1
+        before = oracles.observe(src)
+        for rule_name, rule in (("delete_pointless_statements", fixes.delete_pointless_statements),):  # format_code renames shadowed names (C19's business)
+            if rule is None:
+                import pyrefact
+                st, out = oracles._guarded(lambda: pyrefact.format_code(src), 60)
+            else:
+                st, out = oracles._guarded(lambda: rule(src), 30)
+            if st != "ok" or out == src:
+                continue
+            s.nt([name, rule_name])
+            after = oracles.observe(out)
+            if before[0] == "ok" and (after[0], after[1]) != (before[0], before[1]):
+                s.disagreements.append({"case": name, "src": src, "out": out, "rule": rule_name,
+                                        "what": f"{rule_name} deletes a statement that calls a re-bound name ({name}): stdout {before[1]!r} -> {after[1]!r}"})
+    s.note = ("45 closed programs: a pure def whose name is re-bound (local / tuple assignment, for / with / walrus target, global) to print, called from a bare statement "
+              "(directly, in a comprehension, conditional expression, tuple, nested), plus controls; delete_pointless_statements must keep stdout")
+    return s
+
+
 def suites(ctx):
     common.import_pyrefact()
-    return [blocking_suite(ctx), exec_suite(ctx), sideeffect_suite(ctx), unreachable_oracle(ctx), position_probe(ctx)]
+    return [blocking_suite(ctx), exec_suite(ctx), sideeffect_suite(ctx), unreachable_oracle(ctx), position_probe(ctx), pointless_oracle(ctx)]
 
 
 def match_known(d, known):
@@ -518,7 +586,17 @@ def replay_witness(ctx, kf):
 def search(ctx, breaks):
     common.import_pyrefact()
     ctx2 = ctx
-    found = unreachable_oracle(ctx2).disagreements[:3] + position_probe(ctx2).disagreements[:3]
+    # first the statements on which is_blocking and the model disagree, each followed by an observable statement, at function
+    # level and inside a loop; then the general oracle
+    bodies = []
+    for b in breaks:
+        for d in b.get("inputs", []):
+            if "stmt" in d:
+                bodies.append([d["stmt"]])
+                bodies.append([["for", "unk", [d["stmt"], ["simple"]]]])
+                bodies.append([["while", "unk", [d["stmt"], ["simple"]]]])
+    found = unreachable_oracle(ctx2, only_bodies=bodies[:600]).disagreements[:3] if bodies else []
+    found += unreachable_oracle(ctx2).disagreements[:3] + position_probe(ctx2).disagreements[:3]
     if not found:
         ctx2.thorough = True
         found = unreachable_oracle(ctx2).disagreements[:3]
